@@ -4,23 +4,36 @@ P = dict(
     memcheck_stride=dict(quick=50, thorough=40),
     level='exploration',
     technique='runtime monitoring: scripted test shells with per-test execution counters, an independent std::string model of filter acceptance and of the selection rule, '
-              'TestResult counters, a recording TestOutput parsed against the callback grammar, and a walk of the registry list after every reverse/shuffle; histories of several CommandLineTestRunner invocations on one registry, each judged against its own command line; ASan/UBSan build',
+              'TestResult counters, a recording TestOutput parsed against the callback grammar, and a walk of the registry list after every reverse/shuffle; histories of several CommandLineTestRunner invocations on one registry, each judged against its own command line; histories of runs on one live registry driven through its own setters (setGroupFilters / setNameFilters independently of each other, unDoLastAddTest / addTest, reverse / shuffle, setRunIgnored), each run judged against the lists installed and the tests registered at that moment; filter modes requested once or repeatedly on the same TestFilter object, with a differential diagnosis against a filter on which each mode was requested once; ASan/UBSan build',
     rule='cases: a registry (0..60 tests, thorough up to 400; group/name strings from a 16-word alphabet with many substring/equality/case relations; ignored and failing tests mixed) '
          'driven through 1..3 repetitions with group/name filter lists (0..3 each, independent strict/invert flags), run-ignored, reverse, shuffle (boundary and random seeds, real rand() '
          'and hostile rand() values through the PlatformSpecificRand seam), either directly on TestRegistry or through CommandLineTestRunner with an argv, '
          'or through a history of 2..5 CommandLineTestRunner invocations on the same registry (each with its own argv: group / name filter lists present or absent, -ri, -b, -s, -r; '
          'each runner destroyed before the next one as RunAllTests does, or all kept alive), every repetition of every invocation judged against the filters of that invocation only; '
-         'three filter tables (one filter x target, two filters x target, group filter x name filter) are enumerated completely. '
+         'or through a setter history: 2..5 runs on one registry, before each run 0..3 operations out of {setGroupFilters(new non-empty list / NULL / the same list object again / the installed list after a mode was requested again on one of its filters or a filter was put in front), the same for setNameFilters, reverse, shuffle, unDoLastAddTest, addTest of a test that is not registered, setRunIgnored} - the two filter setters are called independently of each other; a quarter of the filters built for the direct sections get strictMatching() / invertMatching() called 1..3 times each in random interleaving; '
+         'four filter tables (one filter x target, two filters x target, group filter x name filter, one filter x target x {strictMatching() 0..3 times} x {invertMatching() 0..3 times} x 4 interleavings) are enumerated completely. '
          'Non-trivial = at least one filter that accepts some and rejects some tests of the registry, or a reverse/shuffle of >= 3 tests (table cases: every cell); '
-         'distinct by (number of tests, filter lists with flags, sequence of order operations / run-ignored; for runner histories the sequence of these per invocation)',
+         'distinct by (number of tests, filter lists with flags and mode-request counts, sequence of order operations / run-ignored; for runner histories the sequence of these per invocation; for setter histories the sequence of operations and runs)',
     floor=dict(quick=20000, thorough=200000),
     counter_floor=dict(
         quick={'ops_shuffle': 10000, 'ops_reverse': 3000, 'configurations_with_discriminating_filter': 10000, 'repetitions_with_run_ignored': 3000, 'runner_invocations': 3000,
                'runner_history_later_invocations': 8000, 'later_invocations_without_group_filters_after_one_with': 2000, 'later_invocations_without_name_filters_after_one_with': 2000,
-               'later_invocation_repetitions_where_leftover_filters_would_change_the_selection': 3000},
+               'later_invocation_repetitions_where_leftover_filters_would_change_the_selection': 3000,
+               'setter_history_later_runs': 25000, 'later_runs_after_group_filter_setter_alone:list_to_list': 6000, 'later_runs_after_name_filter_setter_alone:list_to_list': 2500,
+               'later_runs_after_group_filter_setter_alone_where_the_previous_list_decides_differently_for_the_first_test': 3000,
+               'later_runs_after_name_filter_setter_alone_where_the_previous_list_decides_differently': 2500,
+               'setter_group_list_replaced_by_NULL': 1500, 'setter_group_same_list_object_set_again': 1500, 'undo_last_add_between_runs': 2000, 'add_test_between_runs': 700,
+               'mode_requested_on_a_filter_of_the_installed_list_and_list_set_again': 2000,
+               'filters_with_invertMatching_requested_an_even_number_of_times': 5000, 'filters_with_strictMatching_requested_more_than_once': 10000},
         thorough={'ops_shuffle': 150000, 'ops_reverse': 45000, 'configurations_with_discriminating_filter': 150000, 'repetitions_with_run_ignored': 45000, 'runner_invocations': 45000,
                   'runner_history_later_invocations': 96000, 'later_invocations_without_group_filters_after_one_with': 24000, 'later_invocations_without_name_filters_after_one_with': 24000,
-                  'later_invocation_repetitions_where_leftover_filters_would_change_the_selection': 36000},
+                  'later_invocation_repetitions_where_leftover_filters_would_change_the_selection': 36000,
+                  'setter_history_later_runs': 300000, 'later_runs_after_group_filter_setter_alone:list_to_list': 80000, 'later_runs_after_name_filter_setter_alone:list_to_list': 30000,
+                  'later_runs_after_group_filter_setter_alone_where_the_previous_list_decides_differently_for_the_first_test': 40000,
+                  'later_runs_after_name_filter_setter_alone_where_the_previous_list_decides_differently': 30000,
+                  'setter_group_list_replaced_by_NULL': 20000, 'setter_group_same_list_object_set_again': 20000, 'undo_last_add_between_runs': 25000, 'add_test_between_runs': 9000,
+                  'mode_requested_on_a_filter_of_the_installed_list_and_list_set_again': 25000,
+                  'filters_with_invertMatching_requested_an_even_number_of_times': 70000, 'filters_with_strictMatching_requested_more_than_once': 140000},
     ),
     assumptions=[
         'group notifications: balance and nesting of start/end and "a test starts inside a group opened for its own group name" are judged; '
@@ -31,5 +44,11 @@ P = dict(
         'runner histories: run-ignored is treated as sticky (once an invocation gave -ri, ignored tests of later invocations on that registry are expected to run: '
         'TestRegistry offers no way to switch it off and the property does not ask for one); the list order is carried over from invocation to invocation; '
         'the same runner object is never asked to run twice',
+        'filter modes: TestFilter offers strictMatching() and invertMatching() and nothing that takes a mode back, asString() / operator== report them as modes: '
+        '"as requested" is read as: a mode is on iff it was requested at least once, so requesting negation (or exact matching) twice on the same object is still negation (exact matching), '
+        'as in the unchanged code; a toggle reading of invertMatching() is flagged under its own key (filter-mode-requested-repeatedly-differs-from-requested-once:...)',
+        'setter histories: "registered" means reachable from getFirstTest() - after unDoLastAddTest exactly one test less (which one is taken from the list walk, not demanded), '
+        'after addTest the added one more; a filter list is only modified while installed if the setter is called with it again before the next run '
+        '(lists changed behind the registry\'s back without a setter call are not generated); every list stays alive until the registry is gone',
     ],
 )
